@@ -129,7 +129,8 @@ def _realise(arg):
     ns = [1, 3, 4][int(rng.integers(3))]
     if ns == nq:
         ns += 1   # a transposed result must be visible in the shape
-    rs = int(rng.integers(0, 1000))
+    # boundary seeds: 0 is a valid seed that "falsy" idioms (seed or default) silently replace
+    rs = [0, 0, 1, int(rng.integers(0, 1000)), int(rng.integers(0, 2 ** 31 - 1))][int(rng.integers(5))]
     tr = {"id": "%s/nLab%d/%s/std%d-ent%d/v%d" % (case["kind"], case["nLab"], case["prior"], case["retStd"],
                                                   case["retEnt"], variant),
           "kind": case["kind"], "nLab": case["nLab"], "prior": case["prior"], "retStd": case["retStd"],
